@@ -1,5 +1,6 @@
 import Py4hwV.Drv.Proto
 import Py4hwV.Lib.Seq
+import Py4hwV.Lib.SeqNet
 /- C09 driver: runs the block models (Lib.*) and the reference machines (Lib.Spec.*) on an input history.
      run <Block> | <params> | <step>;<step>;...          (each step: comma separated ints)
    answer:  <model trace> | <spec trace> [| <extra>]     trace = steps joined by ';', a step = outputs before the edge
@@ -10,7 +11,9 @@ import Py4hwV.Lib.Seq
      Pipe w0,w1,.. / reset,d0,d1,..      Srb w,depth / li,ri,sl,sr       Stack w,depth / din,push,pop   (extra: within-depth flag)
      Edge dir(0 pos,1 neg,2 both) / a    Div n,qw,nspec / reset              Mem aw,dw / ra,wa,we,wd
      DualPort aw,dw / ra_a,wa_a,we_a,wd_a,ra_b,wa_b,we_b,wd_b
-     AutoReset (no params) / 0 -/
+     AutoReset (no params) / 0
+     net <Block> | <params> |          -> the netlist builder of Lib/SeqNet.lean rendered (kinds | regs | order | widths)
+       TReg hasE,hasR   Counter w,hasReset,hasInc   StepUp w,sw,hasReset,hasInc   Delay w,delay,hasEn,hasReset   Edge dir   Srb w,depth -/
 open Proto Lib
 
 def g (l : List Int) (k : Nat) : Int := l.getD k 0
@@ -67,6 +70,12 @@ def handle (line : String) : String :=
     | ["run", "DualPort"] =>
       both (dualPort (gn p 0) (gn p 1)) (Spec.dualPort (gn p 1)) two
         (h.map fun s => ⟨⟨gn s 0, gn s 1, gn s 2, gn s 3⟩, ⟨gn s 4, gn s 5, gn s 6, gn s 7⟩⟩)
+    | ["net", "TReg"] => (C09N.tregNet (gb p 0) (gb p 1)).render
+    | ["net", "Counter"] => (C09N.counterNet (gn p 0) (gb p 1) (gb p 2)).render
+    | ["net", "Delay"] => (C09N.delayNet ⟨gn p 0, gn p 1, gb p 2, gb p 3⟩).render
+    | ["net", "Edge"] => (C09N.edgeNet (match gn p 0 with | 0 => .pos | 1 => .neg | _ => .both)).render
+    | ["net", "Srb"] => (C09N.srbNet (gn p 0) (gn p 1)).render
+    | ["net", "StepUp"] => (C09N.stepNet (gn p 0) (gn p 1) (gb p 2) (gb p 3)).render
     | ["run", "AutoReset"] =>
       both autoReset Spec.autoReset one (h.map fun _ => ())
     | _ => "bad-op"
